@@ -239,4 +239,4 @@ def strategy(tier):
 
 
 def budget(tier):
-    return {"examples": 1500, "shards": 1} if tier == "quick" else {"examples": 6000, "shards": 16}
+    return {"examples": 4000, "shards": 1} if tier == "quick" else {"examples": 6000, "shards": 16}
